@@ -28,7 +28,7 @@ ASSUMPTIONS = [
     'list form is used only where the fast path is the documented route '
     '(receiver metadata-free or both functions None, union/union)',
 ]
-REQUIRED = ['fast_path_taken', 'general_path_taken', 'path_agreement_checked',
+REQUIRED = ['wide_universe_cases', 'fast_path_taken', 'general_path_taken', 'path_agreement_checked',
             'md_tap_calls_checked', 'empty_intersection_refused',
             'list_form', 'overlap_partial', 'overlap_disjoint',
             'overlap_nested', 'overlap_identical', 'mode_union_union',
@@ -114,6 +114,14 @@ def run_case(ctx, index):
                         'punct'])
     UO = gen.gen_ids(r, r.randint(1, 6), ids_cls, 'O')
     US = gen.gen_ids(r, r.randint(1, 6), ids_cls, 'S')
+    if index % 97 == 5:
+        # one merged axis beyond 256 ids, the other tiny (and the reverse)
+        wide = gen.gen_ids(r, r.randint(280, 340), 'ascii', 'W')
+        if r.random() < .5:
+            US = wide
+        else:
+            UO = wide
+        ctx.count('wide_universe_cases')
     ov_o = OVERLAPS[index % len(OVERLAPS)]
     ov_s = r.choice(OVERLAPS)
     ao, bo = subsets(r, UO, ov_o)
